@@ -1,2 +1,237 @@
-(* C03/Props.v -- placeholder while the model is being tied to the code *)
-From Verif Require Import C03.Model.
+(* C03/Props.v -- property theorems only; each is closed by [exact] of a lemma
+   from C03/Proofs.v / Protocol.v / Heap.v / Refuted.v and followed by Print Assumptions.
+
+   The model: C03/Model.v = Operator.__new__ / __call__ / _default_call_in_place /
+   _default_call_out_of_place on a heap of element objects (identity = index) whose
+   entries live in the poisoned carrier [option R] (None = NaN / uninitialised
+   memory, absorbing even for 0 * None).  The `_call` bodies of the nine expression
+   classes of odl/operator/operator.py and of five leaf classes of default_ops.py
+   are REGENERATED from the source into Gen/C03Bodies.v on every run
+   (translate/call_bodies.py) and interpreted by C03/Model.v. *)
+From Coq Require Import ZArith QArith Reals List Bool Arith.
+From Verif Require Import Base.Num Base.Vec C03.Syntax Gen.C03Bodies C03.Poison C03.Model C03.Heap
+  C03.Protocol C03.Classes C03.Proofs C03.Corr C03.Refuted.
+Import ListNotations.
+
+(* ------------------------------------------------------------------ *)
+(* T1  op(x, out=y) can only return the very object y -- for EVERY implementation of
+   `_call` (the slots ip/oop are arbitrary functions), every carrier, every store. *)
+Theorem call_out_identity :
+  forall (V : Type) (HV : Num V) (junk : nat -> nat -> V) (dom : space) (ran : rsp)
+         (ip : @pyval V -> @pyval V -> @M V (@pyval V)) (oop : @pyval V -> @M V (@pyval V))
+         (x y : @pyval V) (s : @store V) (r : @pyval V) (s' : @store V),
+  public_call junk dom ran ip oop x (Some y) s = Ok r s' -> r = y.
+Proof. intros V HV. exact (@out_identity_any V). Qed.
+Print Assumptions call_out_identity.
+
+(* T1  the result of op(x) is an element of op.range, whatever `_call` returned *)
+Theorem call_result_in_range :
+  forall (V : Type) (HV : Num V) (junk : nat -> nat -> V) (dom : space) (ran : rsp)
+         (ip : @pyval V -> @pyval V -> @M V (@pyval V)) (oop : @pyval V -> @M V (@pyval V))
+         (x : @pyval V) (s : @store V) (r : @pyval V) (s' : @store V),
+  public_call junk dom ran ip oop x None s = Ok r s' -> in_rsp ran r s' = true.
+Proof. intros V HV. exact (@result_in_range_any V). Qed.
+Print Assumptions call_result_in_range.
+
+(* T1  rejection happens before any implementation slot runs and leaves the store
+   exactly as it was: (a) an argument that is neither in the domain nor castable
+   (junk object, scalar, array or element with the wrong number of entries),
+   (b) an out that is not an element of the range, (c) out given to a functional. *)
+Theorem call_rejects_uncastable_input :
+  forall (V : Type) (HV : Num V) (junk : nat -> nat -> V) (dom : space) (ran : rsp)
+         (ip : @pyval V -> @pyval V -> @M V (@pyval V)) (oop : @pyval V -> @M V (@pyval V))
+         (x : @pyval V) (out : option (@pyval V)) (s : @store V),
+  match x with
+  | VJunk | VSc _ => True
+  | VArr d => length d <> fst dom
+  | VElem i => match rd s i with Some (sp, _) => fst sp <> fst dom | None => True end
+  | VNone => False
+  end ->
+  public_call junk dom ran ip oop x out s = Err EDomain s.
+Proof.
+  intros V HV junk dom ran ip oop x out s Hx.
+  destruct (@cast_fails V junk dom x s Hx) as [E1 E2].
+  exact (@rejects_domain_any V junk dom ran ip oop x out s E1 E2).
+Qed.
+Print Assumptions call_rejects_uncastable_input.
+
+Theorem call_rejects_bad_out :
+  forall (V : Type) (HV : Num V) (junk : nat -> nat -> V) (dom : space) (ran : rsp)
+         (ip : @pyval V -> @pyval V -> @M V (@pyval V)) (oop : @pyval V -> @M V (@pyval V))
+         (x y : @pyval V) (s : @store V),
+  in_space dom x s = true -> in_rsp ran y s = false ->
+  public_call junk dom ran ip oop x (Some y) s = Err ERange s.
+Proof. intros V HV. exact (@rejects_range_any V). Qed.
+Print Assumptions call_rejects_bad_out.
+
+Theorem call_rejects_out_for_functional :
+  forall (V : Type) (HV : Num V) (junk : nat -> nat -> V) (dom : space)
+         (ip : @pyval V -> @pyval V -> @M V (@pyval V)) (oop : @pyval V -> @M V (@pyval V))
+         (x y : @pyval V) (s : @store V),
+  in_space dom x s = true -> in_rsp RField y s = true ->
+  public_call junk dom RField ip oop x (Some y) s = Err EFunctionalOut s.
+Proof. intros V HV. exact (@rejects_functional_out_any V). Qed.
+Print Assumptions call_rejects_out_for_functional.
+
+(* ------------------------------------------------------------------ *)
+(* T1  space.lincomb(a, x1, b, x2, out) -- the primitive every in-place statement is
+   made of -- writes exactly a*x1 + b*x2 in BOTH size regimes and for EVERY alias
+   pattern (out is x1, out is x2, x1 is x2, all three, none), provided the operands
+   are NaN-free; the old contents of a non-aliased out are arbitrary. *)
+Theorem lincomb_all_regimes_all_aliases :
+  forall (a b : R) (i1 i2 o : nat) (s : @store (option R)) (sp : space) (d1 d2 : list R) (dold : list (option R)),
+  wf_store s ->
+  rd s i1 = Some (sp, cl d1) -> rd s i2 = Some (sp, cl d2) -> rd s o = Some (sp, dold) ->
+  do_lincomb (Some a) i1 (Some b) i2 o s = Ok tt (upd s o (sp, cl (rlin a b d1 d2))).
+Proof. exact do_lincomb_clean. Qed.
+Print Assumptions lincomb_all_regimes_all_aliases.
+
+(* T1  both default bridges are correct: whichever of the three admissible `_call`
+   signatures a class has, if the slot(s) it implements meet the raw contract with
+   denotation F, then BOTH public call modes meet the public contract with F. *)
+Theorem default_bridges_correct :
+  forall (junk : nat -> nat -> option R) (k : kind) (dom ran : space) (ro : ro_t) (F : list R -> list R)
+         (raw_oop : @pyval (option R) -> @M (option R) (@pyval (option R)))
+         (raw_ip : @pyval (option R) -> @pyval (option R) -> @M (option R) (@pyval (option R))),
+  (k = KOop \/ k = KBoth -> raw_oop_vec raw_oop dom ran ro F) ->
+  (k = KIp \/ k = KBoth -> raw_ip_vec raw_ip dom ran ro F) ->
+  let '(ip, oop) := slots junk k (RSp ran) raw_oop raw_ip in
+  vec_ok {| o_dom := dom; o_ran := RSp ran; o_call := public_call junk dom (RSp ran) ip oop |} ran ro F.
+Proof. exact slots_vec. Qed.
+Print Assumptions default_bridges_correct.
+
+(* ------------------------------------------------------------------ *)
+(* T1  THE PROPERTY FOR ALL OPERATOR TREES.  [den ro o dom ran F] says: o is a tree,
+   of any depth, built from the nine expression classes (fresh temporaries), the five
+   translated leaf classes and primitive leaves of any of the three dispatch kinds
+   (incl. leaves returning their argument itself), well-formed as the __init__
+   methods demand, and F is the real function it denotes.  Then for EVERY store, every
+   NaN-free x in the domain, every y in the range with ARBITRARY contents (NaN
+   included), every content of uninitialised memory [junk]:
+     op(x)        returns an element of the range holding F(x); it is a new object or
+                  x itself; no pre-existing object is modified;
+     op(x, out=y) returns the object y, y holds the same F(x), and no pre-existing
+                  object other than y is modified (so x is untouched in both calls). *)
+Theorem call_protocol_all_trees :
+  forall (junk : nat -> nat -> option R) (ro : ro_t) (o : @op (option R)) (dom ran : space) (F : list R -> list R),
+  den ro o dom ran F ->
+  forall (s : @store (option R)) (x y : nat) (dx : list R) (dy : list (option R)),
+    wf_store s -> good ro s ->
+    rd s x = Some (dom, cl dx) -> rd s y = Some (ran, dy) -> x <> y -> ~ In y (ro_ids ro) ->
+    (exists r s1, call junk o (VElem x) None s = Ok (VElem r) s1 /\
+        rd s1 r = Some (ran, cl (F dx)) /\
+        (forall i, (i < length s)%nat -> ~ In i [] -> rd s1 i = rd s i) /\
+        (r = x \/ (length s <= r)%nat)) /\
+    (exists s2, call junk o (VElem x) (Some (VElem y)) s = Ok (VElem y) s2 /\
+        rd s2 y = Some (ran, cl (F dx)) /\
+        (forall i, (i < length s)%nat -> ~ In i [y] -> rd s2 i = rd s i)).
+Proof. exact protocol_all_trees. Qed.
+Print Assumptions call_protocol_all_trees.
+
+(* T1  contract preservation, the induction behind it: every well-formed tree meets
+   the public contract (both modes) with its denotation. *)
+Theorem contract_preservation :
+  forall (junk : nat -> nat -> option R) (ro : ro_t) (o : @op (option R)) (dom ran : space) (F : list R -> list R),
+  den ro o dom ran F -> o_dom (sem junk o) = dom /\ vec_ok (sem junk o) ran ro F.
+Proof. exact den_ok. Qed.
+Print Assumptions contract_preservation.
+
+(* non-vacuity: the primitive kernels used as leaves are clean maps, and a concrete
+   tree  (2 * (M o |.|)) + (I * v)  has a denotation *)
+Example kernels_are_clean :
+  (forall sp, pf_clean PAbs sp sp (map Rabs)) /\
+  (forall dom ran m, length m = fst ran -> pf_clean (PMat (map cl m)) dom ran (fun d => map (fun r => dot r d) m)) /\
+  (forall dom w, pf_sc_clean (PInner (cl w)) dom (fun d => dot d w)).
+Proof. split; [exact pabs_clean | split; [exact pmat_clean | exact pinner_clean]]. Qed.
+
+Example a_tree_with_a_denotation :
+  let sp := (2, 0)%nat in
+  let ro := [(5%nat, sp, [1%R; 2%R])] in
+  let absleaf := Lf {| lf_kind := KBoth; lf_fun := PAbs; lf_alias := false; lf_quirk := QNone |} sp (RSp sp) in
+  let mat := Lf {| lf_kind := KIp; lf_fun := PMat (map cl [[1%R; 0%R]; [1%R; 1%R]]); lf_alias := false;
+                   lf_quirk := QNone |} sp (RSp sp) in
+  exists F, den ro
+    (Op cls_OperatorSum sp (RSp sp) [] [] [None; None]
+       [Op cls_OperatorLeftScalarMult sp (RSp sp) [Some 2%R] [] [] [Op cls_OperatorComp sp (RSp sp) [] [] [None] [mat; absleaf]];
+        Op cls_MultiplyOperator sp (RSp sp) [] [5%nat] [] []]) sp sp F.
+Proof.
+  cbv zeta. eexists.
+  apply D_Sum.
+  - apply D_LScal. eapply D_Comp.
+    + apply D_Leaf. apply (pmat_clean (2, 0)%nat (2, 0)%nat [[1%R; 0%R]; [1%R; 1%R]]). reflexivity.
+    + apply D_Leaf. apply pabs_clean.
+  - apply D_Multiply. left. reflexivity.
+Qed.
+
+(* ------------------------------------------------------------------ *)
+(* REFUTED: "op(x, out=y) holds the same values as op(x) whatever y contained before"
+   is FALSE for proximal_l2(space)(sigma) in the branch sigma*lam >= ||x|| on spaces
+   with fewer than THRESHOLD_SMALL = 100 entries: the body is out.set_zero(), which
+   evaluates 0*out + 0*out, so NaN in out survives; and because the out-of-place
+   call runs the same body on an uninitialised element, op(x) itself returns
+   whatever np.empty handed out times zero (finding C03/set-zero-reads-out). *)
+Theorem inplace_ignores_old_out_refuted :
+  data_after (call junkQ prox_l2_big (VElem 0%nat) (Some (VElem 1%nat)) [(sp3, q3 1 2 3); (sp3, nan3)]) 1 = Some nan3
+  /\ data_after (call junkQ prox_l2_big (VElem 0%nat) (Some (VElem 1%nat)) [(sp3, q3 1 2 3); (sp3, q3 7 8 9)]) 1
+     = Some (q3 0 0 0).
+Proof. exact prox_l2_old_out_survives. Qed.
+Theorem outofplace_reads_uninitialised_refuted :
+  match call junkQ prox_l2_big (VElem 0%nat) None [(sp3, q3 1 2 3)] with
+  | Ok (VElem r) s => data_after (Ok (VElem r) s) r = Some nan3
+  | _ => False
+  end.
+Proof. exact prox_l2_oop_reads_uninitialised. Qed.
+(* the root cause in isolation: y.set_zero() on fewer than 100 entries keeps a NaN *)
+Theorem set_zero_keeps_nan_refuted :
+  exists (s s' : @store (option R)) y sp,
+    rd s y = Some (sp, [None]) /\ do_set_zero y s = Ok tt s' /\ rd s' y = Some (sp, [None]).
+Proof. exact set_zero_small_keeps_nan. Qed.
+(* PARTIAL: from 100 entries on the same operator ignores the old contents of out *)
+Theorem proximal_l2_bigstep_partial :
+  forall (junk : nat -> nat -> option R) (sp : space) (s : @store (option R)) (x y : nat)
+         (dx dy : list (option R)),
+  wf_store s -> rd s x = Some (sp, dx) -> rd s y = Some (sp, dy) -> (threshold_small <= fst sp)%nat ->
+  call junk (prox_l2_bigstep sp) (VElem x) (Some (VElem y)) s
+  = Ok (VElem y) (upd s y (sp, cl (repeat 0%R (fst sp)))).
+Proof. exact prox_bigstep_ip_large. Qed.
+Print Assumptions proximal_l2_bigstep_partial.
+Theorem set_zero_partial :
+  (forall (s : @store (option R)) y sp d, rd s y = Some (sp, d) -> (threshold_small <= length d)%nat ->
+     do_set_zero y s = Ok tt (upd s y (sp, cl (repeat 0%R (length d))))) /\
+  (forall (s : @store (option R)) y sp d, wf_store s -> rd s y = Some (sp, cl d) ->
+     do_set_zero y s = Ok tt (upd s y (sp, cl (rscal 0 d)))).
+Proof. split; [exact set_zero_large_clean | exact set_zero_clean]. Qed.
+
+(* REFUTED without the side conditions of call_protocol_all_trees (objects owned by an
+   operator -- user-supplied temporaries, self.vector -- passed as x or out): *)
+Theorem user_tmp_as_input_refuted :
+  data_after (call junkQ (Op cls_OperatorRightScalarMult sp3 (RSp sp3) [Some 2%Q] [] [Some 0%nat] [scal3 3])
+                (VElem 0%nat) (Some (VElem 1%nat)) [(sp3, q3 1 2 3); (sp3, nan3)]) 0 = Some (q3 2 4 6).
+Proof. exact rscal_user_tmp_as_input_modifies_x. Qed.
+Theorem user_tmp_as_out_refuted :
+  let o := Op cls_OperatorSum sp3 (RSp sp3) [] [] [Some 1%nat; None] [scal3 1; scal3 3] in
+  data_after (call junkQ o (VElem 0%nat) (Some (VElem 1%nat)) [(sp3, q3 1 2 3); (sp3, q3 9 9 9)]) 1 = Some (q3 6 12 18)
+  /\ match call junkQ o (VElem 0%nat) None [(sp3, q3 1 2 3); (sp3, q3 9 9 9)] with
+     | Ok (VElem r) s => data_after (Ok (VElem r) s) r = Some (q3 4 8 12)
+     | _ => False
+     end.
+Proof. exact sum_user_tmp_as_out_wrong. Qed.
+Theorem own_vector_as_out_refuted :
+  let o := Op cls_OperatorLeftVectorMult sp3 (RSp sp3) [] [1%nat] [] [scal3 3] in
+  data_after (call junkQ o (VElem 0%nat) (Some (VElem 1%nat)) [(sp3, q3 1 2 3); (sp3, q3 1 2 3)]) 1 = Some (q3 9 36 81)
+  /\ match call junkQ o (VElem 0%nat) None [(sp3, q3 1 2 3); (sp3, q3 1 2 3)] with
+     | Ok (VElem r) s => data_after (Ok (VElem r) s) r = Some (q3 3 12 27)
+     | _ => False
+     end.
+Proof. exact lvec_own_vector_as_out_wrong. Qed.
+(* the leaf contract is necessary: an accumulating / input-writing leaf breaks every tree above it *)
+Theorem leaf_contract_necessary_refuted :
+  (let o := Op cls_OperatorLeftScalarMult sp3 (RSp sp3) [Some 2%Q] [] [] [bad_leaf QAccumulate] in
+   data_after (call junkQ o (VElem 0%nat) (Some (VElem 1%nat)) [(sp3, q3 1 2 3); (sp3, q3 1 1 1)]) 1 = Some (q3 4 6 8)
+   /\ match call junkQ o (VElem 0%nat) None [(sp3, q3 1 2 3); (sp3, q3 1 1 1)] with
+      | Ok (VElem r) s => data_after (Ok (VElem r) s) r = Some (q3 2 4 6)
+      | _ => False
+      end) /\
+  (let o := Op cls_OperatorLeftScalarMult sp3 (RSp sp3) [Some 2%Q] [] [] [bad_leaf QWritesX] in
+   data_after (call junkQ o (VElem 0%nat) None [(sp3, q3 1 2 3)]) 0 = Some (q3 0 0 0)).
+Proof. split; [exact accumulating_leaf_breaks_inplace | exact writing_leaf_breaks_input]. Qed.
